@@ -86,6 +86,13 @@ func downH(line string) string {
 	if first != "" {
 		return first
 	}
+	// the hypothesis of the no-panic theorem for Expand (Props/C19.v, wfw): between single quotes and after a backslash the
+	// parser puts at most one literal
+	for _, w := range words {
+		if !wordShape(w) {
+			return "FAIL:word-shape:" + hx(printWord(w))
+		}
+	}
 	for i := 0; i < 256; i++ {
 		cfg := config(i)
 		for _, c := range cmds {
@@ -111,6 +118,35 @@ func downH(line string) string {
 		}
 	}
 	return fmt.Sprintf("ok words=%d", len(words))
+}
+
+func wordShape(w ast.Word) bool {
+	for _, p := range w {
+		switch x := p.(type) {
+		case *ast.Quote:
+			if x.Tok == "'" || x.Tok == `\` {
+				if len(x.Value) > 1 {
+					return false
+				}
+				if len(x.Value) == 1 {
+					if _, ok := x.Value[0].(*ast.Lit); !ok {
+						return false
+					}
+				}
+			} else if !wordShape(x.Value) {
+				return false
+			}
+		case *ast.ParamExp:
+			if !wordShape(x.Word) {
+				return false
+			}
+		case *ast.ArithExp:
+			if !wordShape(x.Expr) {
+				return false
+			}
+		}
+	}
+	return true
 }
 
 // case: string(hex): Eval, Match (all 16 modes), Glob on an arbitrary string
